@@ -309,7 +309,7 @@ class Cluster:
         memo = _SHARED.setdefault("conj", {})
         if cache_key not in memo:
             cls = [self.clause_ph(clause_from_key(k)) for k in keys]
-            memo[cache_key] = z3.And(cls) if cls else z3.BoolVal(True)
+            memo[cache_key] = fast_and(cls)
         return memo[cache_key]
 
     def clause_z3(self, it, objs, clause, cache=None):
@@ -325,6 +325,18 @@ class Cluster:
                 cache[key] = e
             lits.append(e)
         return z3.Not(z3.And(lits)) if len(lits) > 1 else z3.Not(lits[0])
+
+
+def fast_and(exprs):
+    """z3.And over a long list without the per-argument Python coercions"""
+    n = len(exprs)
+    if n == 0:
+        return z3.BoolVal(True)
+    if n == 1:
+        return exprs[0]
+    ctx = exprs[0].ctx
+    arr = (z3.Ast * n)(*[e.as_ast() for e in exprs])
+    return z3.BoolRef(z3.Z3_mk_and(ctx.ref(), n, arr), ctx)
 
 
 def clause_key(cl):
